@@ -40,7 +40,7 @@ RULE = ("8 scenario kinds x GOMAXPROCS in {1,2,16} with 2-7 goroutines, plus gen
 EXPLANATION = ("model observation = 'norace;same' when the footprint check of the scenario's thread programs holds, else the race class "
                "the model predicts; oracle: a reported race fails with its class (the three known classes are listed findings), "
                "'results differ' fails with results_differ.")
-HARNESS_TIMEOUT = {"quick": 900, "thorough": 3600}
+HARNESS_TIMEOUT = {"quick": 2400, "thorough": 7200}
 
 
 def classify(fs):
